@@ -238,8 +238,13 @@ func (vc *VC) runPass() {
 			if a.S == b.S {
 				continue
 			}
-			if len(n) > 2 && (n[:2] == "F$" || n[:2] == "G$") && !isRqlitePkg(heapPkg[n]) {
-				continue // state of library objects is never relied on across calls (every library call havocs it)
+			if !c.Pure && !c.NoHeap && len(n) > 2 && (n[:2] == "F$" || n[:2] == "G$") && !isRqlitePkg(heapPkg[n]) {
+				// under an assigns clause the fields of library objects and library package
+				// variables are outside the frame: every library call havocs them, and so does
+				// every call of a function with an assigns clause (call.go, libFieldsPattern),
+				// so no caller keeps a fact about them across such a call. A pure / noheap
+				// contract keeps them at the call site and is checked for them here.
+				continue
 			}
 			listed := false
 			for _, as := range c.Assigns {
